@@ -370,7 +370,12 @@ TEXT = {
           "used by the harness to price every embedded call, tied to behaviour by a descendant-count monitor and by calls of "
           "every method carrying cost-1 / cost; plasma only from fused QSR by a storage-free replay of the plasma contract's "
           "chain (Fuse calls with every token x amounts around the minimum) compared at every momentum with the fused amounts "
-          "the node records and fed to enoughPlasma.",
+          "the node records and fed to enoughPlasma; across reorganisations and pool operations (chain.RollbackTo by 1-3 "
+          "momentums, InsertChain of a longer side chain on a second node, re-delivery of blocks pooled before): availability is "
+          "a function of the chain at the acknowledged momentum and of the account's blocks unconfirmed as of it only "
+          "(available_history_free, available_same_on_agreeing_chains, no_plasma_without_fusion_on_chain), tied by plasma-avail "
+          "lines after every operation and by a monitor that recomputes the clause for every confirmed / pooled block from the "
+          "chain the block is now on, plus equality of all plasma figures with a fresh node fed only the adopted chain.",
   "design_ref": "§3 C12",
   "note": "SHA3 is a parameter; the model is hand-written and tied by correspondence (boundary + random inputs); "
           "the facts enoughPlasma rests on (fused QSR, committed / uncommitted chain plasma, base cost) are read from the "
